@@ -1,14 +1,7 @@
 package influxql
 
 import (
-	"regexp"
 	"strings"
-)
-
-var (
-	sanitizeSetPassword = regexp.MustCompile(`(?i)password\s+for[^=]*=\s+(["']?[^\s"]+["']?)`)
-
-	sanitizeCreatePassword = regexp.MustCompile(`(?i)with\s+password\s+(["']?[^\s"]+["']?)`)
 )
 
 // Sanitize attempts to sanitize passwords out of a raw query.
@@ -20,28 +13,98 @@ var (
 // This function works on the raw query and attempts to retain the original input
 // as much as possible.
 func Sanitize(query string) string {
-	if matches := sanitizeSetPassword.FindAllStringSubmatchIndex(query, -1); matches != nil {
-		var buf strings.Builder
-		i := 0
-		for _, match := range matches {
-			buf.WriteString(query[i:match[2]])
-			buf.WriteString("[REDACTED]")
-			i = match[3]
-		}
-		buf.WriteString(query[i:])
-		query = buf.String()
+	// The query is split into words, quoted literals and punctuation; whitespace,
+	// comments and everything inside quotes cannot start or end a clause. The
+	// states follow "WITH PASSWORD <literal>" and "PASSWORD FOR <user> = <literal>".
+	const (
+		idle          = iota
+		seenWith      // WITH
+		seenPassword  // PASSWORD (not after WITH)
+		seenFor       // PASSWORD FOR
+		seenUser      // PASSWORD FOR <user>
+		wantsPassword // WITH PASSWORD, or PASSWORD FOR <user> =
+	)
+
+	var buf strings.Builder
+	last, state := 0, idle
+	redact := func(i, j int) {
+		buf.WriteString(query[last:i])
+		buf.WriteString("[REDACTED]")
+		last = j
 	}
 
-	if matches := sanitizeCreatePassword.FindAllStringSubmatchIndex(query, -1); matches != nil {
-		var buf strings.Builder
-		i := 0
-		for _, match := range matches {
-			buf.WriteString(query[i:match[2]])
-			buf.WriteString("[REDACTED]")
-			i = match[3]
+	for i := 0; i < len(query); {
+		switch c := query[i]; {
+		case c == ' ' || c == '\t' || c == '\n' || c == '\r':
+			i++
+		case c == '-' && strings.HasPrefix(query[i:], "--"):
+			for i < len(query) && query[i] != '\n' {
+				i++
+			}
+		case c == '/' && strings.HasPrefix(query[i:], "/*"):
+			if j := strings.Index(query[i+2:], "*/"); j >= 0 {
+				i += 2 + j + 2
+			} else {
+				i = len(query)
+			}
+		case c == '\'' || c == '"':
+			// A quoted literal ends at the matching quote; a backslash escapes the next character.
+			j := i + 1
+			for j < len(query) && query[j] != c && query[j] != '\n' {
+				if query[j] == '\\' && j+1 < len(query) {
+					j++
+				}
+				j++
+			}
+			if j < len(query) && query[j] == c {
+				j++
+			}
+			switch {
+			case state == wantsPassword:
+				redact(i, j)
+				state = idle
+			case state == seenFor && c == '"':
+				state = seenUser
+			default:
+				state = idle
+			}
+			i = j
+		case isIdentChar(rune(c)) || c >= 0x80:
+			j := i
+			for j < len(query) && (isIdentChar(rune(query[j])) || query[j] >= 0x80) {
+				j++
+			}
+			switch word := strings.ToLower(query[i:j]); {
+			case state == wantsPassword:
+				// A password that was not quoted (an invalid query).
+				redact(i, j)
+				state = idle
+			case state == seenFor:
+				state = seenUser
+			case word == "with":
+				state = seenWith
+			case word == "password" && state == seenWith:
+				state = wantsPassword
+			case word == "password":
+				state = seenPassword
+			case word == "for" && state == seenPassword:
+				state = seenFor
+			default:
+				state = idle
+			}
+			i = j
+		case c == '=' && state == seenUser:
+			state = wantsPassword
+			i++
+		default:
+			state = idle
+			i++
 		}
-		buf.WriteString(query[i:])
-		query = buf.String()
 	}
-	return query
+
+	if last == 0 {
+		return query
+	}
+	buf.WriteString(query[last:])
+	return buf.String()
 }
